@@ -156,7 +156,7 @@ func (g *Gen) loopEffects(li loopInfo, h *ssa.BasicBlock) loopEffects {
 						continue
 					}
 					cc := g.contractFor(&s.Call)
-					if cc == nil && callee != nil && g.canInline(callee) && depth < 3 {
+					if callee != nil && g.canInline(callee) && depth < 3 {
 						scanFn(callee, nil, depth+1)
 						continue
 					}
